@@ -2,7 +2,7 @@
 (* C12, the selection pipeline as a state machine (what the service does with one request), in exact integer
    arithmetic.  One action per step of the code:
 
-     Submit            a request arrives at the front end              (_create_jobs, one job spec)
+     Submit (Init)     a request arrives at the front end              (_create_jobs, one job spec)
      RejectMalformed   unknown machine type / cpu not a packable size   (valid_machine_types, is_valid_cores_mcpu)
      Accept            sizes parsed, worker type derived from a tier    (parse.py, memory_to_worker_type)
      ExaminePool(i)    next pool: cloud / preemptible / label / type    (select_cheapest_price_pool, select_pool_from_worker_type)
@@ -24,17 +24,12 @@ vars == << pc, cfg, q, need, todo, cur, cands, out >>
 None   == [i |-> 0, stage |-> "none", cores |-> 0]
 NoOut  == << -1, -1, 0, 0, 0, 0 >>
 TooBig == 1000000000                       \* "more cores than any machine has" (keeps arithmetic inside 32 bits)
-NoCfg  == Cfg("gcp", << >>)
-NoReq  == PoolReq("gcp", 0, "", NoAmt, NoAmt, FALSE, "")
 
-Init == /\ pc = "idle" /\ cfg = NoCfg /\ q = NoReq /\ need = << 0, 0 >> /\ todo = {} /\ cur = None /\ cands = {}
-        /\ out = NoOut
-
+\* Submit: any configuration and request of the universe (one behaviour per pair)
 Submit(s, c, r) ==
-  /\ pc = "idle"
-  /\ cfg' = Suites[s].cfgs[c] /\ q' = Suites[s].reqs[r]
-  /\ pc' = "validate"
-  /\ UNCHANGED << need, todo, cur, cands, out >>
+  /\ pc = "validate" /\ cfg = Suites[s].cfgs[c] /\ q = Suites[s].reqs[r]
+  /\ need = << 0, 0 >> /\ todo = {} /\ cur = None /\ cands = {} /\ out = NoOut
+Init == \E s \in DOMAIN Suites : \E c \in DOMAIN Suites[s].cfgs : \E r \in DOMAIN Suites[s].reqs : Submit(s, c, r)
 
 RejectMalformed ==
   /\ pc = "validate" /\ ~WellFormed(q)
@@ -115,15 +110,14 @@ PrivateSelect ==
           IN  out' = << PLACED, 0, 1000 * m.cores, m.mem_mib, 0, StorageGrant(FALSE) >>
   /\ UNCHANGED << cfg, q, need, todo, cur, cands >>
 
-Next == \/ (pc = "idle" /\ \E s \in DOMAIN Suites : \E c \in DOMAIN Suites[s].cfgs : \E r \in DOMAIN Suites[s].reqs : Submit(s, c, r))
-        \/ RejectMalformed \/ Accept
+Next == \/ RejectMalformed \/ Accept
         \/ \E i \in todo : ExaminePool(i)
         \/ StorageStep \/ AdjustForMemory \/ AdjustForPacking \/ CheckWorker \/ Decide \/ PrivateSelect
 
 Spec == Init /\ [][Next]_vars /\ WF_vars(Next)
 
 (* ---- properties ---- *)
-TypeOK == /\ pc \in {"idle", "validate", "pools", "private", "done"}
+TypeOK == /\ pc \in {"validate", "pools", "private", "done"}
           /\ cur.stage \in {"none", "storage", "memory", "packing", "worker"}
           /\ todo \subseteq DOMAIN cfg.pools
           /\ \A k \in cands : k.i \in DOMAIN cfg.pools
